@@ -107,6 +107,9 @@ fn pool() -> Vec<Vec<u8>> {
     { let mut p = vec![]; p.extend(ins(0x85, 0, 1, 0, 1)); p.extend(EXIT);                       // main: call f (slot 2); exit
       p.extend(ins(0xbf, 6, 10, 0, 0)); p.extend(ins(0x85, 0, 1, 0, 1)); p.extend(EXIT);          // f: r6 = r10; call g (slot 5); exit
       p.extend(ins(0xbf, 0, 6, 0, 0)); p.extend(ins(0x1f, 0, 10, 0, 0)); p.extend(EXIT); v.push(p); } // g: r0 = r6 - r10; exit
+    // 12: reads a stack slot before writing it, then leaves a marker there: 0x700 on the zeroed stack every interpreter execution starts from, whatever ran before
+    //     on the same VM (interpreter only: compiled code runs on the native stack, whose contents are outside every claim)
+    { let mut p = vec![]; p.extend(ins(0x79, 0, 10, -8, 0)); p.extend(ins(0x07, 0, 0, 0, 0x700)); p.extend(ins(0x7a, 10, 0, -8, 0x1234)); p.extend(EXIT); v.push(p); }
     v
 }
 
@@ -122,14 +125,14 @@ pub fn gen(w: &mut impl Write, thorough: bool, seed: u64) {
         let len = 1 + r.below(if i % 10 == 0 { 40 } else { 14 });
         // mini-model of (verifier in force, loaded program) so that an unsafe program (6: no exit, 7: register r11) is only ever
         // offered to a verifier that rejects it
-        let accepts = |v: u32, p: usize| -> bool { match v { 0 => [0usize, 1, 2, 3, 4, 8, 9, 10, 11].contains(&p), 1 => true, 2 => false, _ => p <= 6 } };
+        let accepts = |v: u32, p: usize| -> bool { match v { 0 => [0usize, 1, 2, 3, 4, 8, 9, 10, 11, 12].contains(&p), 1 => true, 2 => false, _ => p <= 6 } };
         let safe = |p: usize| p != 6 && p != 7;
         let mut verifier = 0u32;
         let mut loaded: Option<usize> = init.parse::<usize>().ok();
         let mut ops: Vec<String> = vec![];
         for _ in 0..len {
             let op = match r.below(16) {
-                0..=2 => { let mut cand: Vec<usize> = (0..(if kind == "fixed" { 10 } else { 9 })).filter(|p| safe(*p) || !accepts(verifier, *p)).collect(); cand.push(11); cand.push(11);
+                0..=2 => { let mut cand: Vec<usize> = (0..(if kind == "fixed" { 10 } else { 9 })).filter(|p| safe(*p) || !accepts(verifier, *p)).collect(); cand.push(11); cand.push(11); cand.push(12); cand.push(12);
                     let p = if kind == "fixed" && r.chance(1, 3) { if r.chance(1, 2) { 9 } else { 10 } } else { *r.pick(&cand) }; if accepts(verifier, p) { loaded = Some(p); }
                     // program 9 reads the slots at offsets 0 and 8: it is only ever loaded with those offsets;
                     // program 10 reads offset 16: only loaded with offsets that do not use it and a buffer of at least 24 bytes (result 0 in a fresh buffer)
@@ -145,8 +148,9 @@ pub fn gen(w: &mut impl Write, thorough: bool, seed: u64) {
                 // successive executions with different packets: empty (mostly), or 1..24 bytes — the fixed-metadata VM rewrites its data / data_end
                 // slots on every execution, an empty packet included (program 9 returns data_end - data)
                 10..=12 => if r.chance(1, 3) { format!("x:{}", 1 + r.below(24)) } else { "x".to_string() },
-                13 | 14 => if r.chance(1, 3) { format!("xj:{}", 1 + r.below(24)) } else { "xj".to_string() },
-                _ => if r.chance(1, 3) { format!("xc:{}", 1 + r.below(24)) } else { "xc".to_string() },
+                // program 12 reads an unwritten stack slot: only ever run by the interpreter
+                13 | 14 => if loaded == Some(12) { "x".to_string() } else if r.chance(1, 3) { format!("xj:{}", 1 + r.below(24)) } else { "xj".to_string() },
+                _ => if loaded == Some(12) { "x".to_string() } else if r.chance(1, 3) { format!("xc:{}", 1 + r.below(24)) } else { "xc".to_string() },
             };
             ops.push(op);
         }
